@@ -576,6 +576,27 @@ Theorem c14_file_requesting_thread : forall rc bs v d, decode_dump bs = Some v -
 Proof. exact file_requesting. Qed.
 Print Assumptions c14_file_requesting_thread.
 
+(* ... and the rest of the index for ANY accepted file, in terms of the streams the reader serves (an unreadable module / unloaded
+   module / thread names stream = an empty one; an unreadable misc info / Breakpad info / status stream = none): dump time, module
+   lists (before the reader-independent filtering read_modules / read_unloaded), process id and create time, names, skipped stacks *)
+Theorem c14_file_streams : forall rc bs v d, decode_dump bs = Some v -> dump_of_bytes rc bs = Some d ->
+  d_time d = v_time v /\
+  d_modules d = map module_of (sres_list (v_modules v)) /\
+  d_unloaded d = map unloaded_of (sres_list (v_unloaded v)) /\
+  process_id d = match sres_opt (v_misc v) with
+                 | Some mi => if Z.testbit (nth 1 (snd mi) 0) 0 then Some (nth 2 (snd mi) 0) else None
+                 | None => option_map status_pid (sres_opt (v_lx_status v))
+                 end /\
+  process_create_time d = match sres_opt (v_misc v) with
+                          | Some mi => if Z.testbit (nth 1 (snd mi) 0) 1 then Some (nth 3 (snd mi) 0) else None
+                          | None => None
+                          end /\
+  forall i cs, nth_error (threads_of d) i = Some cs ->
+    cs_name cs = get_name (map tname_of (sres_list (v_tnames v))) (cs_id cs) /\
+    (bp_dump_tid (sres_opt (v_breakpad v)) = Some (cs_id cs) <-> cs_info cs = CsDumpThreadSkipped).
+Proof. exact file_streams. Qed.
+Print Assumptions c14_file_streams.
+
 (* unloaded modules with per-frame offsets, end to end from the bytes, both build profiles: the subtraction never traps; a frame
    inside a module of the module list stream lists nothing; otherwise the listed (name, offset) pairs are exactly
    instruction - base for every entry of the unloaded module list stream whose range contains the instruction *)
@@ -629,6 +650,21 @@ Print Assumptions c14_bytes_depend_on_streams.
 Theorem c14_context_registers_by_name : forall arch, ctx_regs arch = ctx_regs_named arch.
 Proof. exact ctx_regs_by_name. Qed.
 Print Assumptions c14_context_registers_by_name.
+
+(* Byte order: the same dump model written little- or big-endian is processed to the same record up to the CPU contexts (byte-order
+   specific blobs, interpreted by [rc]) - and the contexts do not enter the requesting thread, the ids and names of the call stacks,
+   process id / create time, crash reason and crash address (nor, trivially, times and module lists). *)
+Theorem c14_bytes_byte_order_independent : forall rc m, wf_model LE m = true -> wf_model BE m = true ->
+  option_map forget_ctx (dump_of_bytes rc (encode_dump LE m)) = option_map forget_ctx (dump_of_bytes rc (encode_dump BE m)) /\
+  forall d,
+    requesting_thread (forget_ctx d) = requesting_thread d /\
+    map cs_id (threads_of (forget_ctx d)) = map cs_id (threads_of d) /\
+    map cs_name (threads_of (forget_ctx d)) = map cs_name (threads_of d) /\
+    process_id (forget_ctx d) = process_id d /\ process_create_time (forget_ctx d) = process_create_time d /\
+    (forall lk o c x, crash_reason lk o c (forget_exc_ctx x) = crash_reason lk o c x /\
+                      crash_address o c (forget_exc_ctx x) = crash_address o c x).
+Proof. intros rc m H1 H2. split; [exact (bytes_byte_order rc m H1 H2)|exact forget_index]. Qed.
+Print Assumptions c14_bytes_byte_order_independent.
 
 (* names are kept apart: the integer a UTF-16 name is carried as determines the name *)
 Theorem c14_names_injective : forall u1 u2,
